@@ -496,6 +496,10 @@ impl RandomDirector {
             let tl = self.pick(&[1usize, 3, 4, 5, 8, 9, 16, 17, 40]);
             let mut rt = format!("r{}", self.broker.msg_n).into_bytes();
             rt.resize(tl.max(rt.len()), b'x');
+            // now and then outside ASCII: two-, three- and four-byte characters (lengths are in bytes)
+            if self.chance(0.2) {
+                rt.extend_from_slice("/r\u{e9}p/\u{221a}2/\u{1f600}".as_bytes());
+            }
             if self.chance(0.85) {
                 props.push(Prop { id: 0x08, n: 0, s: rt, t: vec![] });
             }
@@ -648,7 +652,7 @@ impl RandomDirector {
                 };
                 Step::Publish {
                     qos: which as u8,
-                    topic: format!("t/{n}").into_bytes(),
+                    topic: if self.chance(0.1) { format!("t/{n}/\u{fc}/\u{20ac}").into_bytes() } else { format!("t/{n}").into_bytes() },
                     payload,
                     retain: self.chance(0.2),
                     props,
